@@ -211,6 +211,7 @@ func (e *Engine) VerifyFunc(q string, c *Contract, caseFilter func(label string)
 				defer close(done)
 				defer func() {
 					if r := recover(); r != nil {
+						x.softNames, x.softMiss = false, false
 						x.fail("engine panic: %v", r)
 					}
 				}()
@@ -471,7 +472,20 @@ func (x *Exec) runFunc(fd *ast.FuncDecl, c *Contract, sc splitCase, first bool) 
 		exits = []*State{x.mergeAll(exits)}
 	}
 	endPos := fd.Body.Rbrace
+	// an "ensures internal" clause speaks about locals: it is checked at the exits where
+	// all of them are in scope, and it must be checkable at one exit at least
+	internalHits := map[string]int{}
+	defer func() {
+		for _, en := range c.Ensures {
+			if en.Internal && !en.Free && internalHits[en.Name] == 0 && x.failed == nil {
+				x.fail("spec: ensures internal %s names a local that is in scope at no exit", en.Name)
+			}
+		}
+	}()
 	for ei, exit := range exits {
+		if os.Getenv("GOVC_EXITDEBUG") != "" {
+			fmt.Fprintf(os.Stderr, "EXITDEBUG %s exit#%d of %d nil=%v failed=%v obls=%d\n", x.qual, ei, len(exits), exit == nil, x.failed, len(x.obls))
+		}
 		if exit == nil || x.infeasible(exit) {
 			if coverExits {
 				fmt.Fprintf(os.Stderr, "DEAD-EXIT %s exit#%d (syntactically infeasible)\n", x.qual, ei)
@@ -510,8 +524,34 @@ func (x *Exec) runFunc(fd *ast.FuncDecl, c *Contract, sc splitCase, first bool) 
 			}
 			es := exit.clone()
 			x.skolem = true
-			g := x.evalClause(es, en, endPos)
+			x.softNames, x.softMiss = en.Internal, false
+			at := endPos
+			if en.Internal && exit.retPos.IsValid() {
+				// locals are resolved where this exit's return statement stands
+				at = exit.retPos
+			}
+			var g *Term
+			func() {
+				spec0, pos0 := x.spec, x.specPos
+				defer func() {
+					if r := recover(); r != nil {
+						if _, ok := r.(softMiss); !ok {
+							panic(r)
+						}
+						x.softMiss = true
+						x.spec, x.specPos = spec0, pos0
+					}
+				}()
+				g = x.evalClause(es, en, at)
+			}()
+			x.softNames = false
 			x.skolem = false
+			if en.Internal {
+				if x.softMiss {
+					continue
+				}
+				internalHits[en.Name]++
+			}
 			x.oblige(es, "post", en.Name, g, fd.Pos(), en.Props)
 		}
 		// type invariants of objects written by this function
